@@ -1,6 +1,8 @@
 """C17 — MessagePassing.theoretical vs the Gallina model (Model/MsgPass.v).
 
-The REAL MessagePassing is run (floats) on small cover-labelled networks, `iterations` in {0,1,2,3}, dyadic phi;
+The REAL MessagePassing is run (floats) on small cover-labelled networks, `iterations` in {0,1,2,3}, dyadic phi
+(and, on small networks planned with a cost estimate, MANY sweeps -- 4-14 or the default 25 -- on grids containing
+phi = 1 / 1.0 / np.float64(1) / nearly 1, far enough for the messages to underflow to exactly 0.0 as doubles);
 one object is queried with a whole history of phi values and a fresh object is queried per phi.  The observed
 G.nodes() / G.edges() orders are logged and handed to the model as the sweep schedule.  Floats are compared with the
 model's exact rationals (core.close, 1e-9) and judged by the verified checker c17_check (= within 1e-9 of the
@@ -8,9 +10,13 @@ specification iterate built from the exact expectation, in [0,1], 0 at phi=0, no
 history answers and the fresh answers; c17_check_motifs checks that every motif equation of the network is the
 exact expectation (polynomial identity).
 """
+import sys
 from fractions import Fraction
 
 from harness import core
+
+if hasattr(sys, "set_int_max_str_digits"):
+    sys.set_int_max_str_digits(0)   # the exact iterates at phi = 1 have denominators 2^(tens of thousands)
 
 ID = "C17"
 RULE = ("cover-labelled networks of 1-5 motifs (edge, path, triangle, 4-cycle, diamond, K4, 5-cycle, tailed triangle, "
@@ -19,8 +25,16 @@ RULE = ("cover-labelled networks of 1-5 motifs (edge, path, triangle, 4-cycle, d
         "order; iterations in {0,1,2,3}; histories of 1-6 dyadic phi in [0,1] in shuffled order (0 and 1 included, "
         "repeats allowed) on ONE object, plus a fresh object per phi; in 40% of the cases a decoy object (same vertex sets "
         "and motif IDs, every motif a path) is alive and queried between the queries; 12% hub networks (one vertex in "
-        "9-12 motifs); labels up to 1000; malformed: the empty network. Non-trivial = at "
-        "least two motifs share a vertex, iterations >= 1 and some 0 < phi < 1; distinct by (motifs, order, T, phis)")
+        "9-12 motifs); labels up to 1000; malformed: the empty network. DEEP cases (7 in the corpus, 18 quick / 200 "
+        "thorough): every edge of a random connected skeleton graph (tree / one cycle / 2-3 independent cycles) becomes a "
+        "motif, pendant motifs added; iterations = the first sweep count at which, at phi = 1, some vertex has only "
+        "messages below 2^-1100 (exactly 0.0 as doubles) plus 0-2, or 10-14, or NOT PASSED (default 25), lowered until "
+        "the exact iterate at phi = 1 has <= 12000-bit denominators; queries: phi = 1 always, plus 0, 1/8..7/8 and "
+        "1 - 2^-k (k = 10, 20, 30, 52) where a cost estimate lets the exact model follow; phi passed as float / int / "
+        "np.float64 / np.int64, iterations as int / np.int64 / np.int32 (also in 40% of the ordinary cases; in the ordinary "
+        "cases a query whose exact evaluation is estimated above ~1.5 s is dropped, at least one is kept). "
+        "Non-trivial = at least two motifs share a vertex, iterations >= 1 and some 0 < phi < 1 (or phi = 1 with >= 4 "
+        "sweeps); distinct by (motifs, order, T, phis, number types)")
 EXHAUSTIVE = {"quick": False, "thorough": False}
 EXPLANATION = ("all C17 theorems are general (any network, any sweep order, any T): model = spec for EVERY well-formed "
                "network, motifs of any size (C17_model_is_spec_unconditional, from the general C15 identity; the per-network "
@@ -32,8 +46,9 @@ ASSUMPTIONS = [
     "networkx Graph.edges / nodes / neighbors iteration orders are taken as observed (logged and given to the model)",
     "cover labels are consistent: every edge carries the label of exactly one motif, whose vertex and edge lists "
     "are those of the motif; motifs pairwise share at most one vertex",
-    "IEEE double arithmetic of the implementation stays within 1e-9 of exact arithmetic for iterations <= 3 "
-    "(observed error <= 1e-15)",
+    "IEEE double arithmetic of the implementation stays within 1e-9 of exact arithmetic for the generated cases "
+    "(iterations <= 3 in general, up to 25 on the small deep cases; observed error <= 1e-15; a message that "
+    "underflows to 0.0 at phi = 1 is within 2^-1074 of its exact value)",
 ]
 TRUSTED = ["float -> exact rational via Fraction(float) (exact); tolerance 1e-9 of harness/core.close and of the checker"]
 TECHNIQUE = ("Coq: simulation lemma over the Gauss-Seidel sweeps (model/spec, cached/fresh evaluator, reduced/plain "
@@ -58,6 +73,7 @@ LEVEL_NOTE = ("Trusted: Coq kernel; extraction + OCaml driver + Python harness f
               "iteration orders as logged; float/rational tolerance 1e-9. No axioms.")
 
 IMPL_TIMEOUT = 120.0
+BATCH = 30      # cases are slow; core stops after the first batch that holds a concrete violation
 
 # ----------------------------------------------------------------- motif shapes on local vertices 0..n-1
 SHAPES = {
@@ -151,6 +167,208 @@ def _phis(rng, n, bits=3):
     return out
 
 
+def _glue_finish(rng, motifs, nxt, extra_nodes=0):
+    """common tail of the builders: unique ids, shuffled node / edge insertion order"""
+    seen = set()
+    for m in motifs:
+        while m["id"] in seen:
+            m["id"] += 1
+        seen.add(m["id"])
+    used = []
+    for m in motifs:
+        for v in m["verts"]:
+            if v not in used:
+                used.append(v)
+    nodes = used + [next(nxt) for _ in range(extra_nodes)]
+    rng.shuffle(nodes)
+    ins = [[e[0], e[1], m["id"]] for m in motifs for e in m["edges"]]
+    rng.shuffle(ins)
+    return {"motifs": motifs, "nodes": nodes, "insert": ins}
+
+
+def _place(rng, sh, k, mapping, nxt):
+    """one motif of shape sh; mapping = {local vertex: network vertex} for the attachment points"""
+    n, es = SHAPES[sh]
+    mapping = dict(mapping)
+    for v in range(n):
+        if v not in mapping:
+            mapping[v] = next(nxt)
+    verts = [mapping[v] for v in range(n)]
+    edges = [[mapping[a], mapping[b]] for a, b in es]
+    rng.shuffle(edges)
+    edges = [e if rng.random() < 0.5 else [e[1], e[0]] for e in edges]
+    rng.shuffle(verts)
+    return {"id": k + rng.choice([0, 0, 100]), "key": TOPO_KEY[sh], "verts": verts, "edges": edges}
+
+
+def _build_skeleton(rng, labels, n_sk, chords, pool, pendants=0, extra_nodes=0):
+    """a connected simple SKELETON graph on n_sk vertices with cyclomatic number `chords` (spanning tree +
+    chords); every skeleton edge becomes one motif (two of its vertices are the skeleton end points, the others
+    are fresh, so motifs pairwise share at most one vertex) and `pendants` more motifs hang on used vertices.
+    chords >= 2 gives BRANCHING message flow: at phi = 1 the messages shrink doubly exponentially."""
+    lab = list(labels)
+    rng.shuffle(lab)
+    nxt = iter(lab)
+    sk = [next(nxt) for _ in range(n_sk)]
+    sk_edges = []
+    for i in range(1, n_sk):
+        sk_edges.append((sk[rng.randrange(i)], sk[i]))
+    cand = [(sk[i], sk[j]) for i in range(n_sk) for j in range(i + 1, n_sk)
+            if (sk[i], sk[j]) not in sk_edges and (sk[j], sk[i]) not in sk_edges]
+    rng.shuffle(cand)
+    sk_edges += cand[:chords]
+    rng.shuffle(sk_edges)
+    motifs = []
+    for k, (a, b) in enumerate(sk_edges):
+        sh = rng.choice(pool)
+        n = SHAPES[sh][0]
+        la, lb = rng.sample(range(n), 2)
+        motifs.append(_place(rng, sh, k, {la: a, lb: b}, nxt))
+    for k in range(pendants):
+        used = sorted({v for m in motifs for v in m["verts"]})
+        sh = rng.choice(pool)
+        motifs.append(_place(rng, sh, len(motifs), {rng.randrange(SHAPES[sh][0]): rng.choice(used)}, nxt))
+    return _glue_finish(rng, motifs, nxt, extra_nodes)
+
+
+def _nx_edges(case):
+    """G.edges() of the graph _mk_graph builds (networkx: nodes in insertion order, each adjacency in insertion
+    order, an edge is reported at its first end point) -- only used to PLAN the cost of a case"""
+    adj = {n: [] for n in case["nodes"]}
+    lab = {}
+    for a, b, mid in case["insert"]:
+        adj.setdefault(a, [])
+        adj.setdefault(b, [])
+        if b not in adj[a]:
+            adj[a].append(b)
+        if a not in adj[b]:
+            adj[b].append(a)
+        lab[(a, b)] = lab[(b, a)] = mid
+    seen = set()
+    out = []
+    for n in adj:
+        for nb in adj[n]:
+            if nb not in seen:
+                out.append((n, nb, lab[(n, nb)]))
+        seen.add(n)
+    return out
+
+
+def _plan(case, tmax, b):
+    """bit sizes of the exact messages after 1..tmax sweeps for a phi with a b-bit denominator (b = 0: phi in
+    {0, 1}, where every message is a power of 1/2): list of (largest message, largest over vertices of the
+    SMALLEST message of the vertex).  At phi = 1 the second number >= 1100 means: some vertex has only
+    messages below 2^-1100, i.e. exactly 0.0 as IEEE doubles."""
+    mem = {}
+    for m in case["motifs"]:
+        for v in m["verts"]:
+            mem.setdefault(v, []).append(m["id"])
+    mv = {m["id"]: m["verts"] for m in case["motifs"]}
+    ne = {m["id"]: len(m["edges"]) for m in case["motifs"]}
+    e = {(v, mid): 1 for v in mem for mid in mem[v]}
+    sw = _nx_edges(case)
+    out = []
+    for _ in range(tmax):
+        for i, j, mid in sw:
+            for f in (i, j):
+                e[(f, mid)] = ne[mid] * b + sum(e[(k, o)] for k in mv[mid] if k != f for o in mem[k] if o != mid)
+        out.append((max(e.values()), max(min(e[(v, m)] for m in mem[v]) for v in mem)))
+        if out[-1][0] > 10 ** 7:
+            break
+    return out
+
+
+BUDGET_POW2 = 12000   # bits; phi in {0, 1}: every message is a power of 1/2, cheap in the extracted model
+BUDGET_GEN = 0.5      # any other phi: rough seconds per model evaluation
+
+
+def _est(case, T, phi):
+    """planning only: rough cost (seconds) of one exact evaluation in the extracted model (Coq binary integers):
+    phi in {0, 1}: (bits / BUDGET_POW2)^2 * BUDGET_GEN; otherwise sweeps * (terms of the motif equations per
+    sweep) * (bits / 60)^2 / 1e5"""
+    b = 0 if phi[1] == 1 else phi[1].bit_length() - 1
+    pl = _plan(case, T, b) if T > 0 else [(1, 1)]
+    if len(pl) < T:
+        return 1e9
+    if b == 0:
+        return (pl[-1][0] / BUDGET_POW2) ** 2 * BUDGET_GEN
+    ne = {m["id"]: len(m["edges"]) for m in case["motifs"]}
+    work = sum(2 * 2 ** ne[mid] for _, _, mid in case["insert"])
+    return T * work * (1 + pl[-1][0] / 60) ** 2 / 1e5
+
+
+def _fits(case, T, phi, budget=BUDGET_GEN):
+    return _est(case, T, phi) <= budget
+
+
+def _trim(case, per_phi=1.5, total=4.0):
+    """drop the queries of a randomly generated case whose exact evaluation would take the model too long (branching
+    networks with several sweeps); at least one query is kept (phi = 1/2, then fewer sweeps, as a last resort)"""
+    T = case["T"]
+    keep, spent = [], 0.0
+    for i, p in enumerate(case["phis"]):
+        e = _est(case, T, p)
+        if e <= per_phi and spent + e <= total:
+            keep.append(i)
+            spent += e
+    if not keep:
+        case = dict(case, phis=[[1, 2]])
+        case.pop("ptypes", None)
+        while case["T"] > 0 and not _fits(case, case["T"], [1, 2], per_phi):
+            case["T"] -= 1
+        return case
+    case = dict(case, phis=[case["phis"][i] for i in keep])
+    if case.get("ptypes"):
+        case["ptypes"] = [case["ptypes"][i] for i in keep]
+    return case
+
+
+PTYPES_INT = ["int", "float", "np.float64", "np.int64", "float", "int"]
+
+
+def _deep_case(rng, kind=None):
+    """many sweeps (10-14, the default 25, or just past the point where the messages underflow at phi = 1) on a
+    small network, queried on grids that contain phi = 1 / 1.0 / nearly 1"""
+    labels = list(range(24)) + [31, 32, 33, 64, 65, 100, 129, 257, 1000]   # 33 >= the 26 vertices a deep network can need
+    kind = kind or rng.choice(["multi", "multi", "multi", "uni", "tree"])
+    if kind == "multi":
+        pool = rng.choice([["edge"], ["edge"], ["edge", "edge", "triangle"], ["edge", "path3", "triangle", "cycle4"],
+                           ["triangle", "diamond", "edge"]])
+        c = _build_skeleton(rng, labels, rng.choice([4, 4, 5]), rng.choice([2, 2, 3]), pool, pendants=rng.choice([0, 0, 1, 2]),
+                            extra_nodes=rng.choice([0, 0, 1]))
+    elif kind == "uni":
+        c = _build_skeleton(rng, labels, rng.choice([3, 4, 5]), 1, ["edge", "triangle", "path3", "cycle4", "diamond"],
+                            pendants=rng.choice([0, 1, 2]))
+    else:
+        c = _build_skeleton(rng, labels, rng.choice([2, 3, 4]), 0, ["edge", "triangle", "tailed", "k4"], pendants=1)
+    mode = rng.choice(["under", "under", "under", "mid", "default"])
+    if mode == "under":
+        pl = _plan(c, 30, 0)
+        T = next((t + 1 for t, (_, lo) in enumerate(pl) if lo >= 1100), None)
+        T = rng.choice([10, 11, 12, 13, 14, 25]) if T is None else T + rng.choice([0, 0, 1, 2])
+    elif mode == "mid":
+        T = rng.choice([10, 11, 12, 13, 14])
+    else:
+        T = None
+    one = [1, 1]
+    while not _fits(c, 25 if T is None else T, one):
+        T = (25 if T is None else T) - 1
+    Tn = 25 if T is None else T
+    near = [[(1 << k) - 1, 1 << k] for k in (10, 20, 30, 52)]
+    grid = [[0, 1], [1, 2], [3, 4], [7, 8], [1, 8]] + near
+    ok = [p for p in grid if _fits(c, Tn, p)]
+    phis = [one]
+    heavy = _plan(c, Tn, 0)[-1][0] > 4000 if Tn else False
+    for _ in range(rng.randint(0, 2 if (heavy or Tn >= 10) else 4)):
+        phis.append(rng.choice(ok + [one, one]))
+    rng.shuffle(phis)
+    if rng.random() < 0.3:
+        phis = sorted(phis, key=lambda p: Fraction(*p))
+    ptypes = [rng.choice(PTYPES_INT) if p[1] == 1 else rng.choice(["float", "float", "np.float64"]) for p in phis]
+    return dict(c, T=T, phis=phis, ptypes=ptypes, ttype=rng.choice(["int", "int", "np.int64", "np.int32"]),
+                decoy=rng.random() < 0.25)
+
+
 def corpus():
     import random
     rng = random.Random(17)
@@ -177,11 +395,16 @@ def corpus():
     c = _build(rng, ["triangle", "edge"], range(5), glue="chain")
     out.append(dict(c, T=0, phis=[[1, 2], [1, 4]]))
     out.append({"motifs": [], "nodes": [], "insert": [], "T": 1, "phis": [[1, 2]]})
+    # MANY SWEEPS AT phi = 1 (int and float): on a skeleton with two independent cycles the messages are squared
+    # again and again and reach exactly 0.0 as doubles; the iterate is still the specification iterate (C17-r2-1)
+    rng = random.Random(1717)
+    for kind in ("multi", "multi", "multi", "multi", "uni", "uni", "tree"):
+        out.append(_deep_case(rng, kind))
     return out
 
 
 def generate(rng, tier):
-    n = 55 if tier == "quick" else 600
+    n = 50 if tier == "quick" else 600
     names = list(SHAPES)
     for _ in range(n):
         k = rng.choice([1, 2, 2, 3, 3, 4, 5])
@@ -200,9 +423,17 @@ def generate(rng, tier):
         c["decoy"] = rng.random() < 0.4
         T = rng.choice([0, 1, 1, 2, 2, 3]) if glue != "hub" else rng.choice([1, 2])
         bits = 3 if T <= 2 else 2
-        yield dict(c, T=T, phis=_phis(rng, rng.randint(1, 6 if T <= 2 else 3), bits))
+        case = dict(c, T=T, phis=_phis(rng, rng.randint(1, 6 if T <= 2 else 3), bits))
+        if rng.random() < 0.4:
+            # the same numbers as int / numpy scalars (phi = 0 and 1 also as integers)
+            case["ptypes"] = [rng.choice(PTYPES_INT) if p[1] == 1 else rng.choice(["float", "np.float64"])
+                              for p in case["phis"]]
+            case["ttype"] = rng.choice(["int", "np.int64", "np.int32"])
+        yield _trim(case)
     for _ in range(2 if tier == "quick" else 10):
         yield {"motifs": [], "nodes": [], "insert": [], "T": rng.randint(0, 2), "phis": [[1, 2]]}
+    for _ in range(18 if tier == "quick" else 200):
+        yield _deep_case(rng)
 
 
 # ----------------------------------------------------------------- implementation side
@@ -231,6 +462,33 @@ def _frac(x):
     return [f.numerator, f.denominator]
 
 
+def _T(case):
+    """number of sweeps: T = None means `iterations` is not passed (the documented default 25)"""
+    return 25 if case["T"] is None else case["T"]
+
+
+def _typed(v, typ):
+    """the number v in the requested Python / numpy type (int types only for integral v)"""
+    if typ in ("int", "float"):
+        return int(v) if typ == "int" else float(v)
+    import numpy as np
+    return {"np.float64": np.float64, "np.int64": np.int64, "np.int32": np.int32}[typ](v)
+
+
+def _phi_args(case):
+    pt = case.get("ptypes") or ["float"] * len(case["phis"])
+    return [_typed(num, t) if (den == 1 and t in ("int", "np.int64")) else _typed(num / den, "np.float64" if t == "np.float64" else "float")
+            for (num, den), t in zip(case["phis"], pt)]
+
+
+def _new_mp(G, case, T="case"):
+    from gcmpy.message_passing.message_passing import MessagePassing
+    T = case["T"] if T == "case" else T
+    if T is None:
+        return MessagePassing(G)
+    return MessagePassing(G, iterations=_typed(T, case.get("ttype", "int")))
+
+
 def impl(case):
     from gcmpy.message_passing.message_passing import MessagePassing
     G = _mk_graph(case)
@@ -241,20 +499,21 @@ def impl(case):
         # a second object alive at the same time: same vertex sets and motif IDs, but every motif is a path
         dm = [dict(m, edges=[[m["verts"][i], m["verts"][i + 1]] for i in range(len(m["verts"]) - 1)]) for m in case["motifs"]]
         dcase = dict(case, motifs=dm, insert=[[e[0], e[1], m["id"]] for m in dm for e in m["edges"]])
-        decoy = MessagePassing(_mk_graph(dcase), iterations=max(1, case["T"]))
-    mp = MessagePassing(G, iterations=case["T"])
+        decoy = MessagePassing(_mk_graph(dcase), iterations=max(1, _T(case)))
+    mp = _new_mp(G, case)
     hist = []
     pure = 1
-    for num, den in case["phis"]:
+    args = _phi_args(case)
+    for phi in args:
         if decoy is not None:
             decoy.theoretical(0.375)
         before = _snapshot(G)
-        hist.append(_frac(mp.theoretical(num / den)))
+        hist.append(_frac(mp.theoretical(phi)))
         if _snapshot(G) != before:
             pure = 0
     fresh = []
-    for num, den in case["phis"]:
-        fresh.append(_frac(MessagePassing(_mk_graph(case), iterations=case["T"]).theoretical(num / den)))
+    for phi in args:
+        fresh.append(_frac(_new_mp(_mk_graph(case), case).theoretical(phi)))
     return {"nodes": nodes, "sweep": sweep, "hist": hist, "fresh": fresh, "pure": pure}
 
 
@@ -268,7 +527,7 @@ def model_calls(case, impl_obs):
         obs = {"nodes": case["nodes"], "sweep": case["insert"]}
     else:
         obs = impl_obs
-    return [("c17_run", _net_tree(case, obs) + [case["T"], case["phis"]])]
+    return [("c17_run", _net_tree(case, obs) + [_T(case), case["phis"]])]
 
 
 def model_obs(case, raws):
@@ -304,8 +563,8 @@ def check_calls(case, impl_obs):
     if core.is_exc(impl_obs) or not case["nodes"]:
         return []
     net = _net_tree(case, impl_obs)
-    return [("c17_check", net + [case["T"], [[p, v] for p, v in zip(case["phis"], impl_obs["hist"])]]),
-            ("c17_check", net + [case["T"], [[p, v] for p, v in zip(case["phis"], impl_obs["fresh"])]]),
+    return [("c17_check", net + [_T(case), [[p, v] for p, v in zip(case["phis"], impl_obs["hist"])]]),
+            ("c17_check", net + [_T(case), [[p, v] for p, v in zip(case["phis"], impl_obs["fresh"])]]),
             ("c17_check_motifs", net)]
 
 
@@ -326,7 +585,7 @@ def check_verdict(case, impl_obs, raws):
 
 
 def nontrivial_key(case, impl_obs):
-    if core.is_exc(impl_obs) or case["T"] < 1:
+    if core.is_exc(impl_obs) or _T(case) < 1:
         return None
     cnt = {}
     for m in case["motifs"]:
@@ -334,9 +593,9 @@ def nontrivial_key(case, impl_obs):
             cnt[v] = cnt.get(v, 0) + 1
     if not any(c >= 2 for c in cnt.values()):
         return None
-    if not any(0 < Fraction(*p) < 1 for p in case["phis"]):
+    if not any(0 < Fraction(*p) < 1 or (p[0] == p[1] and _T(case) >= 4) for p in case["phis"]):
         return None
-    return [case["motifs"], case["insert"], case["nodes"], case["T"], case["phis"]]
+    return [case["motifs"], case["insert"], case["nodes"], case["T"], case["phis"], case.get("ptypes"), case.get("ttype")]
 
 
 def shrink(case):
@@ -349,13 +608,19 @@ def shrink(case):
                    nodes=[v for v in case["nodes"] if v in vs] or case["nodes"][:1])
     for i in range(len(case["phis"])):
         if len(case["phis"]) > 1:
-            yield dict(case, phis=case["phis"][:i] + case["phis"][i + 1:])
-    if case["T"] > 1:
+            d = dict(case, phis=case["phis"][:i] + case["phis"][i + 1:])
+            if case.get("ptypes"):
+                d["ptypes"] = case["ptypes"][:i] + case["ptypes"][i + 1:]
+            yield d
+    if case["T"] is not None and case["T"] > 1:
         yield dict(case, T=case["T"] - 1)
+    if case.get("decoy"):
+        yield dict(case, decoy=False)
 
 
 def describe(case, impl_obs):
-    d = {"motifs": [(m["key"], m["verts"]) for m in case["motifs"]], "T": case["T"], "phis": case["phis"]}
+    d = {"motifs": [(m["key"], m["verts"]) for m in case["motifs"]], "T": case["T"], "phis": case["phis"],
+         "phi_types": case.get("ptypes"), "iterations_type": case.get("ttype", "int")}
     if not core.is_exc(impl_obs):
         d["values"] = [float(Fraction(*v)) for v in impl_obs["hist"]]
         d["sweep_order"] = impl_obs["sweep"][:8]
@@ -370,6 +635,10 @@ def histogram(cases):
         h[k] = h.get(k, 0) + 1
         k = f"T{c['T']}"
         h[k] = h.get(k, 0) + 1
+        for t in c.get("ptypes") or []:
+            h["phi as " + t] = h.get("phi as " + t, 0) + 1
+        if any(p[0] == p[1] for p in c["phis"]) and _T(c) >= 8:
+            h["phi=1 with >= 8 sweeps"] = h.get("phi=1 with >= 8 sweeps", 0) + 1
         for m in c["motifs"]:
             k = f"key{m['key']}"
             h[k] = h.get(k, 0) + 1
